@@ -85,7 +85,16 @@ def m_len(ip, args, kw, st, node):
         return [(Sym(n, "int"), st)]
     if isinstance(v, Sym) and is_ref_ty(v.ty):
         return ip.call_method(v, v.ty[1], "__len__", [], {}, st, node)
-    from .expr import ImgSet
+    from .expr import ImgSet, ImgSetQ
+    if isinstance(v, ImgSetQ):
+        n = fresh("ndistinct", I)
+        a, b = z3.Const("qa!ds", Qid), z3.Const("qb!ds", Qid)
+        va, vb = v.val(a), v.val(b)
+        alleq = z3.ForAll([a, b], z3.Implies(z3.And(z3.Select(v.dom, a), z3.Select(v.dom, b)), va == vb),
+                          patterns=[z3.MultiPattern(z3.Select(v.dom, a), z3.Select(v.dom, b))])
+        nonempty = z3.Exists([a], z3.Select(v.dom, a))
+        st.assume(n >= 0, (n == 0) == z3.Not(nonempty), (n == 1) == z3.And(nonempty, alleq))
+        return [(Sym(n, "int"), st)]
     if isinstance(v, ImgSet):
         # number of distinct values: 0 iff empty, 1 iff non-empty and all equal, >= 2 otherwise
         sq = v.seq
